@@ -12,7 +12,7 @@ import (
 func init() {
 	register("C03", PropCheck{
 		Title:      "Client input is routed by the first matching INCMP, once",
-		Explain:    "Instruction order gives 'first matching'; decided structurally are the gating clauses: (R1) in the INCMP handler every path to the navigation dispatcher passes the 'INMATCH unset' edge (no second move once a match is recorded); (R2) every path to the dispatcher passes SetFlag(INMATCH); (R3) constant resets of INMATCH occur only in Vm.Run behind the 'WAIT was set' (resume) edge; (R4) the move is only reached through the equality edge of a comparison between the decoded selector and State.GetInput(), or the wildcard edge (selector == \"*\"), and the moved-to target is the decoded symbol; (R5) the dead-code check turns unmatched input into WithError(NewInvalidInputError(GetInput())) and MOVE _catch, and Run consults it whenever code runs out; (R6) on the IndexError edge ('previous' at the first page) the handler neither resets the renderer nor fetches code and sets READIN again; (R7) the bytes recorded by State.SetInput in the engine are the Exec parameter itself (or a saved previous input), never a transformed copy; (R10) State.Restart, which re-initialises the reserved flag byte (INMATCH, READIN) and the recorded input, is called only by the engine's session restart - never from code reachable from Vm.Run (added after seeded change C03-E, where Rewind restarted the state in the middle of INCMP routing); (R11) external code cannot clear INMATCH or READIN: every flag write with a run-time index is behind the write filter (C06 R1, shared; added after seeded change C03-G); (R12) the destructive getter State.GetCode, which empties the pending INCMP lines, is called only by methods of DefaultEngine - its code fetch and its reset (added after C03-H, a debug dump that read the pending code with it). (R13) = C08 R9 and (R14) = C06 R9 are shared here: a failed run must not leave stale INCMP lines as pending code, and a client flag index must not wrap onto INMATCH/READIN/WAIT (added after seeded changes C03-I and C03-J). R3 and R5 follow the per-instruction flag protocol and the catch line into a helper that only Run (respectively the dead-code check) calls. (R15) in the target dispatcher the error of State.Next/Previous is returned and no success return lies behind its failure edge: a refused lateral move is 'no match' for INCMP (added after seeded change C03-L). (R16) completeness of the handler: every success return of the INCMP handler that is not behind the move passes the INMATCH-set edge or the mismatch edge of the deciding comparison - an INCMP is skipped for no other reason (added after seeded change C03-N, which skipped selectors the built-in input pattern would not accept). (R17) the invalid-input message survives rendering: no function of package render reachable from Page.Render stores Page.err - with an output size the template is rendered more than once per page (added after seeded change C03-M).",
+		Explain:    "Instruction order gives 'first matching'; decided structurally are the gating clauses: (R1) in the INCMP handler every path to the navigation dispatcher passes the 'INMATCH unset' edge (no second move once a match is recorded); (R2) every path to the dispatcher passes SetFlag(INMATCH); (R3) constant resets of INMATCH occur only in Vm.Run behind the 'WAIT was set' (resume) edge; (R4) the move is only reached through the equality edge of a comparison between the decoded selector and State.GetInput(), or the wildcard edge (selector == \"*\"), and the moved-to target is the decoded symbol; (R5) the dead-code check turns unmatched input into WithError(NewInvalidInputError(GetInput())) and MOVE _catch, and Run consults it whenever code runs out; (R6) on the IndexError edge ('previous' at the first page) the handler neither resets the renderer nor fetches code and sets READIN again; (R7) the bytes recorded by State.SetInput in the engine are the Exec parameter itself (or a saved previous input), never a transformed copy; (R10) State.Restart, which re-initialises the reserved flag byte (INMATCH, READIN) and the recorded input, is called only by the engine's session restart - never from code reachable from Vm.Run (added after seeded change C03-E, where Rewind restarted the state in the middle of INCMP routing); (R11) external code cannot clear INMATCH or READIN: every flag write with a run-time index is behind the write filter (C06 R1, shared; added after seeded change C03-G); (R12) the destructive getter State.GetCode, which empties the pending INCMP lines, is called only by methods of DefaultEngine - its code fetch and its reset (added after C03-H, a debug dump that read the pending code with it). (R13) = C08 R9 and (R14) = C06 R9 are shared here: a failed run must not leave stale INCMP lines as pending code, and a client flag index must not wrap onto INMATCH/READIN/WAIT (added after seeded changes C03-I and C03-J). R3 and R5 follow the per-instruction flag protocol and the catch line into a helper that only Run (respectively the dead-code check) calls. (R15) in the target dispatcher the error of State.Next/Previous is returned and no success return lies behind its failure edge: a refused lateral move is 'no match' for INCMP (added after seeded change C03-L). (R16) completeness of the handler: every success return of the INCMP handler that is not behind the move passes the INMATCH-set edge or the mismatch edge of the deciding comparison - an INCMP is skipped for no other reason (added after seeded change C03-N, which skipped selectors the built-in input pattern would not accept). (R17) the invalid-input message survives rendering: no function of package render reachable from Page.Render stores Page.err - with an output size the template is rendered more than once per page (added after seeded change C03-M). (R18) State.Down reads no element of the path but the last (index len-1, no range, no search): a node deeper in the stack can be entered again (added after seeded change C03-O, a loop check moved into Down). (R19) no branch condition of Vm.Run compares an instruction counter (an integer phi incremented by a constant): any number of INCMP lines is stepped through (added after C03-P).",
 		NotDecided: "equivalence of whole transcripts with a reference router; programs whose INCMP lines are reached through CATCH/MOVE chains are covered only as far as the per-handler gates go.",
 		Run:        runC03,
 	})
@@ -44,6 +44,8 @@ func runC03(w *core.World, r *core.Report) {
 	r.Rule("R14", "flag addressing loses no bits (C06 R9): a client flag index cannot wrap onto INMATCH, READIN or WAIT")
 	r.Rule("R13", "the pending code recorded after a run is that run's own result, on its success edge only (C08 R9): a failed run does not leave stale INCMP lines to match the next input")
 	r.Rule("R16", "an INCMP is skipped only for a recorded match or a mismatch with the input (no other early success return)")
+	r.Rule("R19", "Vm.Run has no budget of instructions (any number of INCMP lines is stepped through)")
+	r.Rule("R18", "State.Down compares only the top of the stack with the target (a node deeper in the stack can be entered again)")
 	r.Rule("R17", "the invalid-input message survives rendering: nothing on the render path stores Page.err")
 	r.Rule("R12", "the destructive code getter State.GetCode is called only by methods of DefaultEngine (code fetch, reset), never by diagnostics or other packages")
 	r.Rule("R11", "external code cannot clear INMATCH or READIN: every dynamic flag write is behind the write filter (C06 R1)")
@@ -204,6 +206,8 @@ func runC03(w *core.World, r *core.Report) {
 	checkLateralErrorsReturned(w, r, "R15")
 	checkIncmpComplete(w, r, "R16", h, fIn, disp)
 	checkRenderKeepsErrorPrefix(w, r, "R17")
+	checkDownJudgesTopOnly(w, r, "R18")
+	checkRunHasNoStepBudget(w, r, "R19")
 	checkFlagAddressing(w, r, "R14")
 	// ---- R3 -----------------------------------------------------------------------------------
 	run := w.Func("vm", "(*Vm).Run")
